@@ -97,6 +97,21 @@ void harness (void)
     m->bits.bits[0] = 3;
     VP_ASSERT (a->common.alpha_origin_x == ox && a->common.alpha_origin_y == oy, "new origin in force");
     VP_ASSERT (pixman_image_unref (a) == TRUE && destroyed[0] == 1 && destroyed[1] == 1, "released once");
+#elif SCRIPT == 10	/* glyph cache entry: private copy of the image, released by remove / destroy (small table via the verification hook) */
+    pixman_glyph_cache_t *gc = pixman_glyph_cache_create (); VP_ASSUME (gc != NULL);
+    pixman_image_t *g = mk (0, NULL); g->bits.bits[0] = 0x80402010;
+    pixman_glyph_cache_freeze (gc);
+    const void *e = pixman_glyph_cache_insert (gc, (void *) 1, (void *) 2, ox, oy, g);
+    VP_ASSUME (e != NULL);
+    VP_ASSERT (pixman_glyph_cache_lookup (gc, (void *) 1, (void *) 2) == e, "inserted glyph is found");
+    g->bits.bits[0] = 0;		/* later writes to the argument do not reach the cached copy */
+    VP_ASSERT (pixman_image_unref (g) == TRUE && destroyed[0] == 1, "the cache holds a copy, not a reference on the argument");
+    pixman_glyph_cache_remove (gc, (void *) 1, (void *) 2);
+    VP_ASSERT (pixman_glyph_cache_lookup (gc, (void *) 1, (void *) 2) == NULL, "removed");
+    { pixman_image_t *g2 = mk (1, NULL); e = pixman_glyph_cache_insert (gc, (void *) 1, (void *) 3, 0, 0, g2); VP_ASSERT (pixman_image_unref (g2) == TRUE, "second argument image released by its owner"); }
+    pixman_glyph_cache_thaw (gc);
+    pixman_glyph_cache_destroy (gc);	/* frees the remaining entry and the table */
+    /* image 1 was only lent to insert: still ours */
 #endif
     VP_END ();
 }
